@@ -325,7 +325,7 @@ func optionSteps(res *Result, proj, sig string) {
 	ctx := pongo2.Context{"yes": true, "two": []int{1, 2}}
 	steps := [][2]bool{{true, true}, {false, false}, {true, false}, {false, true}, {false, false}, {true, true}}
 	for _, src := range srcs {
-		for _, how := range []string{"fields", "update"} {
+		for _, how := range []string{"fields", "update", "assign"} {
 			tpl := mustCompile(pongo2.NewSet("opt", &memLoader{files: map[string]string{}}), src)
 			if tpl == nil {
 				continue
@@ -334,6 +334,8 @@ func optionSteps(res *Result, proj, sig string) {
 				res.Cases++
 				if how == "fields" {
 					tpl.Options.TrimBlocks, tpl.Options.LStripBlocks = st[0], st[1]
+				} else if how == "assign" {
+					tpl.Options = &pongo2.Options{TrimBlocks: st[0], LStripBlocks: st[1]}
 				} else {
 					tpl.Options.Update(&pongo2.Options{TrimBlocks: st[0], LStripBlocks: st[1]})
 				}
